@@ -165,11 +165,23 @@ def _inputs(rng, law, regime):
             G0 = np.zeros(3); c0 = "G0:zero"
     else:
         raise ValueError(regime)
+    cS = None
+    if regime in ("moderate", "far", "stretch", "rodlike") and rng.random() < 0.2:
+        # structured strains: components of exactly equal magnitude and exact zeros (pure shear in a diagonal direction, equal
+        # bending about two axes, ...) - states a random direction never produces
+        def pattern():
+            while True:
+                p_ = rng.integers(-1, 2, size=3).astype(float)
+                if np.any(p_):
+                    return p_
+        G = pattern() * float(loguniform(rng, 0.3, 3.0))
+        K = pattern() * float(loguniform(rng, 1e-2, 10.0))
+        cS = "strain:tied_or_zero_components"
     if law == "Harsch2021" and np.linalg.norm(G) < 1e-3:
         G = _dir(rng) * 1e-3
     Ei, cE = _stiffness(rng)
     Fi, _ = _stiffness(rng)
-    return Ei, Fi, G, G0, K, K0, [c0, cK0, cE]
+    return Ei, Fi, G, G0, K, K0, [c0, cK0, cE] + ([cS] if cS else [])
 
 
 # --------------------------------------------------------------------------
